@@ -53,6 +53,16 @@ type Exchange struct {
 //go:norace
 func (x *Exchange) Body() []byte { return bytes.Join(x.Writes, nil) }
 
+// ObjID identifies the response stream of this exchange for footprint declarations.
+//
+//go:norace
+func (x *Exchange) ObjID() uintptr {
+	if x == nil || x.st == nil {
+		return 0
+	}
+	return x.st.id()
+}
+
 // Delivered returns the bytes that became visible to the client.
 //
 //go:norace
